@@ -386,6 +386,9 @@ def gen_case(rng, quick):
     ndf = rng.choice(NDFS) if rng.random() < 0.85 else rng.randint(10 ** 4, 10 ** 7)
     lay = [[layouts.pick(rng, shape), 'B' if const_err and rng.random() < 0.7 else layouts.pick(rng, shape)]
            for _ in sets]
+    if rng.random() < 0.3:              # every array of the case in the same layout (results inherit it)
+        kind = layouts.pick(rng, shape, plain=0.0)
+        lay = [[kind, kind] for _ in sets]
     return {'shape': shape, 'alpha': alpha, 'ndf': ndf, 'layouts': lay,
             'datasets': [[[bits(x) for x in v], [bits(x) for x in e]] for v, e in sets]}
 
@@ -400,12 +403,13 @@ def special_pair_cases():
     grid = [(v1, e1, v2, e2) for e1 in ERR_SPECIALS for e2 in ERR_SPECIALS
             for v1 in VAL_SPECIALS for v2 in VAL_SPECIALS]
     out = []
-    for k, (ndf, lay) in enumerate([(None, 'C'), (10, 'F'), (10 ** 6, 'S'), (1, 'P')]):
+    for k, ndf in enumerate([None, 10, 10 ** 6, 1]):
         part = grid[k * 100:(k + 1) * 100]
-        case = mk([4, 25], 0.05, ndf, ([b[0] for b in part], [b[1] for b in part]),
-                  ([b[2] for b in part], [b[3] for b in part]))
-        case['layouts'] = [[lay, 'C'], ['C', lay]]
-        out.append(case)
+        for lay in ('C', 'F', 'P', 'N'):          # all four arrays in the same layout
+            case = mk([4, 25], 0.05, ndf, ([b[0] for b in part], [b[1] for b in part]),
+                      ([b[2] for b in part], [b[3] for b in part]))
+            case['layouts'] = [[lay, lay], [lay, lay]]
+            out.append(case)
     return out
 
 
